@@ -14,10 +14,34 @@ package crunchrun
 // walkMount: host files are walked only for "tmp" mounts that are part of the
 // output; collection content is taken by Extract of exactly the path relative
 // to the mount; anything not inside a known mount is an error, never dropped.
+// (the API client call in getManifest and the file reads do not touch the
+// copier's mount tables)
+//@ func copier.getManifest trusted
+//@   modifies copier.manifestCache map[string]*manifest.Manifest
+//@ func copier.hostRoot trusted
+//@   modifies nothing
+//@ extern os.Open
+//@   modifies nothing
+//@ extern json.Decoder.Decode
+//@   modifies mem:byte arvados.Collection.*
 //@ func copier.walkMount property C17 safety -bounds
 //@   calls copier.walkHostFS#1: requires srcRoot != "" && srcMount.Kind == "tmp" && !srcMount.ExcludeFromOutput && $0 == dest && $1 == src && $2 == maxSymlinks && $3 == walkMountsBelow
 //@   calls Manifest.Extract#*: requires srcRoot != "" && srcMount.Kind == "collection" && !srcMount.ExcludeFromOutput && $0 == srcRelPath && $1 == dest
 //@   calls copier.walkMountsBelow#1: requires walkMountsBelow && srcRoot != "" && $0 == dest && $1 == src
+//@   # srcRoot/srcMount really are the innermost mount containing src ...
+//@   loop 1: invariant cp == old(cp) && src == old(src) && (srcRoot != "" ==> has(cp.mounts, srcRoot) && strings.HasPrefix(src + "/", srcRoot + "/") && srcMount == cp.mounts[srcRoot])
+//@   loop 1: invariant forall j int :: 0 <= j && j < $i && strings.HasPrefix(src + "/", mapkey(cp.mounts, j) + "/") ==> len(mapkey(cp.mounts, j)) <= len(srcRoot)
+//@   # ... no secret mount inside it contains src when anything is copied ...
+//@   loop 2: invariant cp == old(cp) && src == old(src)
+//@   loop 2: invariant forall j int :: 0 <= j && j < $i ==> !(len(mapkey(cp.secretMounts, j)) > len(srcRoot) && strings.HasPrefix(src + "/", mapkey(cp.secretMounts, j) + "/"))
+//@   calls copier.walkHostFS#1: requires has(cp.mounts, srcRoot) && strings.HasPrefix(src + "/", srcRoot + "/") && srcMount == cp.mounts[srcRoot]
+//@   calls copier.walkHostFS#1: requires forall r string :: has(cp.mounts, r) && strings.HasPrefix(src + "/", r + "/") ==> len(r) <= len(srcRoot)
+//@   calls copier.walkHostFS#1: requires forall r string :: has(cp.secretMounts, r) && strings.HasPrefix(src + "/", r + "/") ==> len(r) <= len(srcRoot)
+//@   calls Manifest.Extract#*: requires has(cp.mounts, srcRoot) && strings.HasPrefix(src + "/", srcRoot + "/") && srcMount == cp.mounts[srcRoot]
+//@   calls Manifest.Extract#*: requires forall r string :: has(cp.mounts, r) && strings.HasPrefix(src + "/", r + "/") ==> len(r) <= len(srcRoot)
+//@   calls Manifest.Extract#*: requires forall r string :: has(cp.secretMounts, r) && strings.HasPrefix(src + "/", r + "/") ==> len(r) <= len(srcRoot)
+//@   # ... and a source outside every mount (and outside every secret mount) is an error
+//@   ensures old((forall r string :: has(cp.mounts, r) ==> !strings.HasPrefix(src + "/", r + "/")) && (forall r string :: has(cp.secretMounts, r) ==> !strings.HasPrefix(src + "/", r + "/"))) ==> result != nil
 
 // walkHostFS: a symbolic link is followed only while the budget lasts
 // (maxSymlinks >= 0) and the target is walked with the budget decreased by one
